@@ -247,10 +247,14 @@ class PullOffSuite(PairedSuite):
                     evs.append(ev(look_to + Fraction(rng.randint(5, 95), 100) * delay, "ring", b))
                 else:
                     evs.append(ev(t_lead + iv * p + Fraction(rng.randint(1, 99), 10 ** 5), "ring", b))
+            if human_leads and delay >= 7 and not others_early and rng.random() < 0.6:
+                # the conductor says Look to AGAIN while everybody is still waiting for the human leader: still nothing may
+                # be struck until that bell has rung
+                evs.append(ev(look_to + delay * Fraction(rng.randint(20, 80), 100) + Fraction(1, 977), "call", "Look to"))
             kind = rng.choice(["wait", "regression"])
             rh = {"kind": kind, "inertia": rng.choice([0.5, 1.0]), "peal_speed": peal, "gap": 1.0, "max": 15}
             horizon = t_lead + iv * (n + 2) + Fraction(1, 3000)
-            yield {"a": base(spec, n, rh, evs, horizon),
+            yield {"a": base(spec, n, rh, sorted_events(evs), horizon),
                    "oracle": {"n": n, "leader": leader, "human_leads": human_leads, "t_lead": fstr(t_lead),
                               "look_to": fstr(look_to), "iv": fstr(iv), "opening": opening,
                               "humans": sorted(humans), "others_early": others_early}}
@@ -637,6 +641,8 @@ class HoldUpSuite(PairedSuite):
             iv, n = Fraction(orc["iv"]), orc["n"]
             hb = orc["human_blows"]
             j = rng.randrange(len(hb) // 4, 3 * len(hb) // 4)
+            if i % 5 == 3:
+                j = 0                      # the very first human blow of the touch is the late one
             holdups = [(j, Fraction(rng.choice([3, 13, 47, 250, 1230, 3001, 11003]), 1000) + Fraction(1, 7919))]
             if lead_row1:
                 j = next(k for k, x in enumerate(hb) if (x[0], x[1]) == (1, 0))
@@ -904,9 +910,22 @@ class ProgressSuite(PairedSuite):
                     t = max(t, look_to + Fraction(1, 50)) + Fraction(rng.randint(1, 999), 10 ** 7)
                     evs.append(ev(t, "ring", bell))
                     awaited.append([r, p, bell, fstr(t)])
+            # assignment churn DURING a row: a human gives a bell up after the row has begun and before that bell's place
+            # (and stops ringing it): from that moment it is Wheatley's, and Wheatley rings it when its turn comes
+            churn = None
+            if style == "punctual" and humans and rng.random() < 0.6:
+                hb_ = rng.choice(sorted(humans))
+                r0 = rng.randint(1, nrows - 2)
+                p0 = rows[r0].index(hb_)
+                if p0 >= 2:
+                    t_un = start + iv * (r0 * n + (r0 // 2) + Fraction(rng.randint(20, 80), 100) * (p0 - 1))
+                    evs = [e for e in evs if not (e[1][0] == "ring" and e[1][1] == hb_ and Fraction(e[0]) > t_un)]
+                    awaited = [a for a in awaited if not (a[2] == hb_ and Fraction(a[3]) > t_un)]
+                    evs.append(ev(t_un + Fraction(1, 977), "assign", hb_, 0))
+                    churn = [hb_, r0]
             # tower-size changes: between touches is covered elsewhere; here DURING the touch
             size_change = None
-            if rng.random() < 0.35:
+            if churn is None and rng.random() < 0.35:
                 j = rng.randrange(n, (nrows - 1) * n)
                 size_change = min(16, max(4, n + rng.choice([-2, -1, 1, 2, 3])))
                 evs.append(ev(start + shift + iv * (j + j // (2 * n)) + Fraction(rng.randint(1, 99), 1000), "size", size_change))
@@ -915,7 +934,7 @@ class ProgressSuite(PairedSuite):
             if style == "lagging":      # regression inert, so that "one interval after the hold-up" is exact
                 rh.update({"inertia": 1.0, "initial_inertia": 1.0})
             second = None
-            if size_change is None and humans and style in ("lagging", "erratic", "punctual") and rng.random() < 0.5:
+            if size_change is None and churn is None and humans and style in ("lagging", "erratic", "punctual") and rng.random() < 0.5:
                 # the band stands and rings a second touch, punctually this time: Wheatley (on the treble) must pull
                 # off at Look to + 3 s however much it had to wait in the first touch
                 t_stand = start + shift_at_last + iv * ((nrows - 2) * n + (nrows - 2) // 2) + Fraction(1, 1000)
@@ -941,7 +960,7 @@ class ProgressSuite(PairedSuite):
             a = base(spec, n, rh, evs, horizon)
             yield {"a": a, "oracle": {"n": n, "nrows": nrows, "humans": sorted(humans), "style": style, "kind": kind,
                                       "iv": fstr(iv), "size_change": size_change, "awaited": awaited,
-                                      "look_to": fstr(look_to), "second": second}}
+                                      "look_to": fstr(look_to), "second": second, "churn": churn}}
 
     def cases(self, rng, tier):
         yield from self.scenarios(rng, tier)
@@ -957,6 +976,13 @@ class ProgressSuite(PairedSuite):
             return None        # after a mid-touch size change only survival is claimed here
         n, iv = orc["n"], Fraction(orc["iv"])
         rows = [(r, b) for (r, b, _t) in rows_rung(o) if len(b) == n]
+        if orc.get("churn"):
+            hb_, r0 = orc["churn"]
+            mine = [x for x in wheatley_strikes(o) if x[2] == hb_ and x[0] >= r0]
+            if len(mine) < orc["nrows"] - r0 - 1:
+                return (f"bell {hb_} was given up by its ringer during row {r0}, before its place: it is Wheatley's from then on, "
+                        f"but Wheatley struck it only {len(mine)} time(s) in the remaining {orc['nrows'] - r0} rows "
+                        f"({len(rows)} rows were completed)")
         if len(rows) < orc["nrows"] - 1:
             return (f"{orc['style']} band, {orc['kind']} mode: only {len(rows)} of {orc['nrows']} rows were completed "
                     f"although every human rang every blow")
